@@ -369,6 +369,9 @@ def check(ctx):
     from . import c01 as _c01
     _c01.sync_assembly(ctx.borrowed("R7", "C01", only=("R1", "R2", "R3", "R4")), repo)
     _c01.async_assembly(ctx.borrowed("R7", "C01", only=("R1", "R2", "R3", "R4")), repo)
+    ctx.rule("R9", "... through the packet layer unchanged: a frame built by send_bytes and handed to handle() gives back exactly the payload, for any payload bytes (C04's end-to-end frame round trip on symbolic payloads borrowed; strip-like calls on a payload are adversarial)")
+    from .c04 import framing as _framing
+    _framing(ctx.borrowed("R9", "C04", only=("R4",), key_contains="frame-round-trip"), repo)
     ctx.rule("R8", "writer and reader composed by interpretation: three snapshots (all byte values / zeros with extreme versions / bytes that look like list punctuation, with a hyphenated pack name) written by GeckoShell.do_snapshot on a model facade and read back line by line through GeckoSnapshot.parse, in both log formats: bytes, pack type, firmware EN/CO, config and log versions and the name come back exactly")
     snapshot_round_trip(ctx, repo, "R8")
     snap_init = repo.method("GeckoSnapshot", "__init__")
